@@ -99,6 +99,18 @@ Theorem C18_sensor_names : forall ps st n,
 Proof. exact sensor_names_iff. Qed.
 Print Assumptions C18_sensor_names.
 
+(* F-C18x-1 (repaired in the katdal worktree): the type of a key used to be asked of the view, which resolves the
+   full key through its prefixes again - witnesses on which that loop dropped a sensor the property demands *)
+Theorem C18_sensor_type_refuted_before_fix :
+  let ps := spec_prefixes "cb" ["s"] in
+  let st := [mkEntry "cb_s_foo" false 1; mkEntry "s_foo" true 2] in
+  spec_sensor st ps "foo" = Some "s_foo"%string /\ sensor_key_viewtyped ps st "foo" = None
+  /\ sensor_key ps st "foo" = Some "s_foo"%string
+  /\ sensor_key_viewtyped ["cb_s_"; "cb_"; "s_"]%string [mkEntry "s_foo" true 2] "foo" = None
+  /\ sensor_key ["cb_s_"; "cb_"; "s_"]%string [mkEntry "s_foo" true 2] "foo" = Some "s_foo"%string.
+Proof. exact sensor_type_refuted_before_fix. Qed.
+Print Assumptions C18_sensor_type_refuted_before_fix.
+
 (* before the repair the LAST key in key order won, so a less specific namespace could win (F6, fixed):
    the witness on which the old table and the new one differ *)
 Theorem C18_sensor_refuted_before_fix :
